@@ -157,7 +157,7 @@ IDIOMS = [
     ('R6.f64_log2_scale_cast', r'\(log_scale as u64\)', r'(log_scale.as_u64())'),
     # R6: `it.all(Zero::is_zero)` on a reversed slice iterator that has already been advanced
     ('R6.rev_digits_iter', r'let mut (\w+) = (\w+)\.iter\(\)\.rev\(\);', r'let mut \1 = shim::RevDigits::new(&\2);'),
-    ('R6.rev_iter_all_zero', r'\b([ab]_it)\.all\(Zero::is_zero\)', r'\1.all_zero()'),
+    ('R6.rev_iter_all_zero', r'\b([A-Za-z_][A-Za-z0-9_]*)\.all\(Zero::is_zero\)', r'\1.all_zero()'),
     # R6: ASCII digit idioms of the formatter
     ('R6.all_ascii_zero', r'([A-Za-z_][A-Za-z0-9_]*)\.iter\(\)\.all\(\|&d\| d == b\'0\'\)', r'shim::iter_all_ascii_zero(&\1)'),
     ('R6.rposition_not_nine', r'([A-Za-z_][A-Za-z0-9_]*)\.iter\(\)\.rev\(\)\.position\(\|&d\| d != b\'9\'\)', r'shim::rposition_not_nine(&\1)'),
@@ -472,6 +472,41 @@ def _consistent_renames(old, new):
                     bad.add(a.text)
     old_names = set(t.text for t in old if t.kind == 'ident')
     new_names = set(t.text for t in new if t.kind == 'ident')
+    # second source of candidates: a LOCAL name (bound by `let`, a closure bar or a pattern) that vanished, paired with a name
+    # that appeared, when both occur equally often and in the same relative order of first occurrence
+    def _counts(toks):
+        c, first = {}, {}
+        for idx, t in enumerate(toks):
+            if t.kind == 'ident':
+                c[t.text] = c.get(t.text, 0) + 1
+                first.setdefault(t.text, idx)
+        return c, first
+    oc, ofirst = _counts(old)
+    nc, nfirst = _counts(new)
+    def _bound_locally(toks, name):
+        for idx, t in enumerate(toks):
+            if t.kind == 'ident' and t.text == name and idx > 0:
+                p1 = toks[idx - 1].text
+                p2 = toks[idx - 2].text if idx > 1 else ''
+                if p1 in ('let', '|', '(', ',') or (p1 == 'mut' and p2 in ('let', '|', '(', ',')):
+                    return True
+        return False
+    vanished = sorted([a for a in oc if a not in nc and a not in _RUST_KEYWORDS and _bound_locally(old, a)], key=lambda a: ofirst[a])
+    appeared = sorted([b for b in nc if b not in oc and b not in _RUST_KEYWORDS and _bound_locally(new, b)], key=lambda b: nfirst[b])
+    used = set(cand.values())
+    for a in vanished:
+        if a in cand:
+            continue
+        opts = [b for b in appeared if b not in used and nc[b] == oc[a]]
+        if len(opts) == 1:
+            cand[a] = opts[0]
+            used.add(opts[0])
+        elif len(opts) > 1:
+            # several equally frequent new names: take the one whose position among the appeared names matches
+            ra = vanished.index(a)
+            best = min(opts, key=lambda b: abs(appeared.index(b) - ra))
+            cand[a] = best
+            used.add(best)
     out = {}
     targets = {}
     for a, b in cand.items():
@@ -486,6 +521,11 @@ def _consistent_renames(old, new):
     return out
 
 
+def _declared_ghosts(txt):
+    """names declared at the top level of a hint (`let ghost x`, `let x` inside a statement-level hint)"""
+    return set(re.findall(r'\blet\s+(?:ghost\s+)?(?:mut\s+)?([A-Za-z_][A-Za-z0-9_]*)', txt))
+
+
 def merge(annotated_code, anns, new_code, body_hints=True):
     """place annotations (given relative to annotated_code) into new_code"""
     old = [t for t in lex(annotated_code) if t.code]
@@ -495,7 +535,7 @@ def merge(annotated_code, anns, new_code, body_hints=True):
     # the annotations follow the renaming instead of being dropped for naming a variable that no longer exists.
     ren = _consistent_renames(old, new)
     if ren:
-        pat = re.compile(r'\b(%s)\b' % '|'.join(re.escape(k) for k in ren))
+        pat = re.compile(r'(?<![.\w:])(%s)\b(?!\s*::)' % '|'.join(re.escape(k) for k in ren))
         anns = [(k, pat.sub(lambda m: ren[m.group(1)], txt), off) for (k, txt, off) in anns]
     sm = difflib.SequenceMatcher(a=[ren.get(t.text, t.text) if t.kind == 'ident' else t.text for t in old],
                                  b=[t.text for t in new], autojunk=False)
@@ -507,9 +547,141 @@ def merge(annotated_code, anns, new_code, body_hints=True):
                 o2n[i1 + k] = j1 + k
         else:
             drift += max(i2 - i1, j2 - j1)
-    # old token index of each annotation
     starts = [t.start for t in old]
+    # scoped renames: a local renamed in ONE scope only (the same name lives on elsewhere in the function) is not a global
+    # renaming.  Positional images of identifiers inside replace blocks whose differing pairs are all identifier->identifier give,
+    # for every old occurrence, the name it has now; an annotation then uses, for each local it mentions, the current name of the
+    # nearest occurrence before it.
+    pos_name = {}
+    for tag, i1, i2, j1, j2 in sm.get_opcodes():
+        if tag == 'replace' and (i2 - i1) == (j2 - j1):
+            pairs = [(old[i1 + q], new[j1 + q]) for q in range(i2 - i1)]
+            if all(a.text == b.text or (a.kind == 'ident' and b.kind == 'ident' and a.text not in _RUST_KEYWORDS and b.text not in _RUST_KEYWORDS)
+                   for a, b in pairs):
+                for q, (a, b) in enumerate(pairs):
+                    if a.text != b.text:
+                        pos_name[i1 + q] = b.text
+    # bindings: `let [mut] a` whose `let` keyword is aligned with a `let [mut] b` of the new text gives a -> b at that binding,
+    # whatever else changed in the statement
+    old_names_all = set(t.text for t in old if t.kind == 'ident')
+    def _binding_name(toks, k_let):
+        q = k_let + 1
+        if q < len(toks) and toks[q].text == 'mut':
+            q += 1
+        if q < len(toks) and toks[q].kind == 'ident' and toks[q].text not in _RUST_KEYWORDS:
+            return q
+        return None
+    def _bind_pass():
+      for k_let, t in enumerate(old):
+        if t.kind == 'ident' and t.text in ('let', 'for') and k_let in o2n:
+            ko = _binding_name(old, k_let)
+            kn = _binding_name(new, o2n[k_let])
+            if ko is not None and kn is not None and old[ko].text != new[kn].text and ren.get(old[ko].text, old[ko].text) != new[kn].text:
+                # the two statements must be recognisably the same statement (an inserted `let` can get aligned with an old one)
+                def _stmt(toks, k):
+                    out_ = []
+                    depth = 0
+                    q = k + 1
+                    while q < len(toks) and len(out_) < 60:
+                        tx = toks[q].text
+                        if tx in '([{':
+                            depth += 1
+                        elif tx in ')]}':
+                            depth -= 1
+                        if (tx == ';' and depth <= 0) or depth < 0:
+                            break
+                        out_.append(tx)
+                        q += 1
+                    return out_
+                so, sn = _stmt(old, ko), _stmt(new, kn)
+                names = set([old[ko].text, new[kn].text]) | set(ren) | set(ren.values()) | set(pos_name.values())
+                so2 = [x for x in so if x not in names]
+                sn2 = [x for x in sn if x not in names]
+                if new[kn].text not in old_names_all and difflib.SequenceMatcher(a=sorted(so2), b=sorted(sn2), autojunk=False).ratio() >= 0.75:
+                    pos_name[ko] = new[kn].text
+    _bind_pass()
+    old_ident_pos = {}
+    for idx, t in enumerate(old):
+        if t.kind == 'ident':
+            old_ident_pos.setdefault(t.text, []).append(idx)
+    new_ident_names = set(t.text for t in new if t.kind == 'ident')
+
+    def _scoped_rename(txt, anchor):
+        if not pos_name:
+            return txt
+        def sub(m):
+            name = m.group(0)
+            occ = old_ident_pos.get(ren_inv.get(name, name)) or old_ident_pos.get(name)
+            if not occ:
+                return name
+            before = [k for k in occ if k < anchor]
+            # the nearest occurrence before the annotation whose current name is known decides (normally the binding itself);
+            # an unchanged occurrence in between (same scope, same name) means the name is still valid
+            for k in reversed(before):
+                if k in pos_name:
+                    return pos_name[k]
+                if k in o2n:
+                    return new[o2n[k]].text if new[o2n[k]].kind == 'ident' else name
+            return name
+        return re.sub(r'(?<![.\w:])[A-Za-z_][A-Za-z0-9_]*\b(?!\s*::)', sub, txt)
+    ren_inv = {v: k for k, v in ren.items()}
+    # moved blocks: statements that were reordered, or the two branches of an inverted `if`, show up as a delete in one place
+    # and an insert in another.  An annotation whose anchor token fell into such a block is re-anchored if the next few tokens
+    # after the anchor occur exactly once among the not-yet-matched tokens of the new text.
+    import bisect as _bisect
+    def _cur_name(k):
+        """current name of the old identifier occurrence k (global rename, else nearest preceding binding with a known new name)"""
+        nm = old[k].text
+        if nm in ren:
+            return ren[nm]
+        for kk in reversed([x for x in old_ident_pos.get(nm, []) if x <= k]):
+            if kk in pos_name:
+                return pos_name[kk]
+            if kk in o2n and kk != k:
+                return new[o2n[kk]].text if new[o2n[kk]].kind == 'ident' else nm
+        return nm
+    old_txt = [(_cur_name(k) if t.kind == 'ident' else t.text) for k, t in enumerate(old)]
+    new_txt = [t.text for t in new]
+    mapped_new = set(o2n.values())
+    for kind_, txt_, off_ in anns:
+        if kind_ == 'hoist':
+            continue
+        i0 = _bisect.bisect_left(starts, off_)
+        if i0 < len(old) and old[i0].text == '}' and i0 >= 5 and (i0 - 1) not in o2n:
+            # hint at the end of a block: recover the image of the statement BEFORE it (see the placement rule below)
+            for W in (10, 7, 5):
+                if i0 - W < 0:
+                    continue
+                win = old_txt[i0 - W:i0]
+                hits = [j for j in range(len(new) - W + 1)
+                        if new_txt[j] == win[0] and new_txt[j:j + W] == win and not any((j + q) in mapped_new for q in range(W))]
+                if len(hits) == 1:
+                    for q in range(W):
+                        if (i0 - W + q) not in o2n:
+                            o2n[i0 - W + q] = hits[0] + q
+                            mapped_new.add(hits[0] + q)
+                    break
+        if i0 in o2n or i0 >= len(old):
+            continue
+        for W in (10, 7, 5):
+            if i0 + W > len(old):
+                continue
+            win = old_txt[i0:i0 + W]
+            hits = [j for j in range(len(new) - W + 1)
+                    if new_txt[j] == win[0] and new_txt[j:j + W] == win and not any((j + q) in mapped_new for q in range(W))]
+            if len(hits) == 1:
+                j = hits[0]
+                q = 0
+                # extend the match as far as the texts agree
+                while i0 + q < len(old) and j + q < len(new) and (i0 + q) not in o2n and (j + q) not in mapped_new and old_txt[i0 + q] == new_txt[j + q]:
+                    o2n[i0 + q] = j + q
+                    mapped_new.add(j + q)
+                    q += 1
+                break
+    _bind_pass()
+    # old token index of each annotation
     placed = {}   # new token index -> [text]
+    lost_names = set()
     lost_clauses = []
     hoisted = []
     lost = 0
@@ -519,7 +691,12 @@ def merge(annotated_code, anns, new_code, body_hints=True):
             hoisted.append(txt)
             continue
         i = bisect.bisect_left(starts, off)
-        if i in o2n:
+        txt = _scoped_rename(txt, i)
+        if i < len(old) and old[i].text == '}' and (i - 1) in o2n and kind != 'inline' and not _is_clause(txt):
+            # a hint at the very end of a block belongs to the statement before it, not to whatever follows the closing brace
+            # (the two branches of an `if` may have been exchanged)
+            j = o2n[i - 1] + 1
+        elif i in o2n:
             j = o2n[i]
         elif i == len(old):
             j = len(new)
@@ -535,6 +712,7 @@ def merge(annotated_code, anns, new_code, body_hints=True):
             if kind != 'inline' and not _is_clause(txt):
                 # a proof hint whose anchor statement changed is dropped rather than placed approximately (a misplaced
                 # assertion could fail for no semantic reason); clauses are still placed or reported below
+                lost_names.update(_declared_ghosts(txt))
                 continue
         if not body_hints and not _is_signature_level(new, j, txt):
             lost += 1
@@ -549,6 +727,12 @@ def merge(annotated_code, anns, new_code, body_hints=True):
             # the statement this hint was attached to has changed shape: a statement-level ghost block can only
             # go between statements; drop it (hint lost) rather than produce unparsable text
             lost += 1
+            lost_names.update(_declared_ghosts(txt))
+            continue
+        if lost_names and not _is_clause(txt) and any(re.search(r'(?<![.\w])%s\b' % re.escape(nm), txt) for nm in lost_names):
+            # this hint uses a ghost variable declared by a hint that was dropped: it cannot compile, drop it too
+            lost += 1
+            lost_names.update(_declared_ghosts(txt))
             continue
         if _is_clause(txt) and not _clause_context_ok(new, j):
             # e.g. a loop invariant whose `while` became an `if`: the hint cannot be placed; drop it
